@@ -2097,7 +2097,7 @@ class State:
                 self.get_up_cards(player_index),
                 self.get_board_cards(board_index),
             )
-        except ValueError:
+        except (KeyError, ValueError):
             hand = None
 
         return hand
